@@ -211,6 +211,13 @@ def _disk_case(desc, ctx):
     else:
         ctx.cls("history:fresh")
     ok, emb = ctx.call("TutteEmbedding", lambda: M.parametrization.TutteEmbedding(m, bmode, use_cotan=cotan, verbose=False, **kwargs), monitor="border")
+    if rng.random() < 0.5:
+        # history: the result is asked for before anything was computed (the guard `if emb.flat_mesh is None: emb.run()`); what is delivered
+        # after run() must be the computed embedding all the same
+        ctx.cls("history:flat_mesh_read_before_run")
+        ok, early = ctx.call("flat_mesh_before_run", lambda: emb.flat_mesh, monitor="storage", abort=False)
+        if ok:
+            ctx.check(early is None, "storage", "flat_mesh", "flat_mesh_delivered_before_run", "flat_mesh is not None although nothing was computed yet")
     ok, _ = ctx.call("run[%s]" % mode.split("_")[0], emb.run, monitor="border")
     # read uv per vertex
     uv = np.full((len(V), 2), np.nan)
